@@ -33,7 +33,7 @@ ANCHORS = [
     "acnportal.acndata.utils:parse_dates",
 ]
 REQUIRED = ["scenarios_judged", "multi_page_scenarios", "empty_page_scenarios", "zero_document_scenarios", "timeseries_scenarios",
-            "time_filter_scenarios", "date_fields_checked", "timeseries_timestamps_checked", "round_trips", "invalid_site_rejections",
+            "time_filter_scenarios", "date_fields_checked", "timeseries_timestamps_checked", "timeseries_straddling_offset_change", "round_trips", "invalid_site_rejections",
             "regime:dst-transition-instant"]
 BUDGET_S = {"quick": 200, "thorough": 2400}
 ZONES = ["America/Los_Angeles", "America/New_York", "Europe/London", "Asia/Kolkata", "Australia/Sydney", "UTC",
@@ -66,8 +66,13 @@ def cases(seed, tier):
 def _docs(rng, n, tzname, ts):
     base = datetime(rng.choice([2018, 2019, 2020]), rng.choice([3, 11, 6, 10, 4]), rng.randint(1, 12), tzinfo=timezone.utc)
     docs = []
+    z = zoneinfo.ZoneInfo(tzname)
+    tr = _next_transition(base, z)
     for i in range(n):
         c = base + timedelta(minutes=rng.randint(0, 60 * 24 * 10), seconds=rng.randint(0, 59))
+        if tr is not None and rng.random() < 0.3:
+            # a session that is connected across the zone's next UTC-offset change
+            c = tr - timedelta(minutes=rng.randint(1, 240), seconds=rng.randint(0, 59))
         d = c + timedelta(minutes=rng.randint(1, 900))
         doc = {"_id": f"id{i}", "sessionID": f"sess{i}", "spaceID": f"sp{i % 7}", "stationID": "2-39-78-362",
                "siteID": "0002", "clusterID": "0039", "userID": rng.choice([None, "000123"]), "timezone": tzname,
@@ -76,8 +81,9 @@ def _docs(rng, n, tzname, ts):
                "kWhDelivered": round(rng.uniform(0.01, 60), 3),
                "userInputs": rng.choice([None, [{"requestedDeparture": rfc1123(d), "kWhRequested": 10.0}]])}
         if ts:
-            k = rng.randint(0, 4)
-            stamps = [rfc1123(c + timedelta(seconds=10 * j)) for j in range(k)]
+            k = rng.randint(0, 9)
+            step = rng.choice([10, 10, 300, 2220, 7200])  # seconds; long steps make a series straddle an offset change
+            stamps = [rfc1123(c + timedelta(seconds=step * j)) for j in range(k)]
             doc["chargingCurrent"] = {"current": [float(j) for j in range(k)], "timestamps": stamps}
             doc["pilotSignal"] = {"pilot": [float(j) for j in range(k)], "timestamps": list(stamps)}
         docs.append(doc)
@@ -230,7 +236,11 @@ def _run_paging(case, obs):
                 for a, b in zip(vt, sv["timestamps"]):
                     obs.ev("timeseries_timestamps_checked")
                     ref = parsedate_to_datetime(b)
-                    if not isinstance(a, datetime) or a.tzinfo is None or a != ref or a.utcoffset() != ref.astimezone(z).utcoffset():
+                    loc = ref.astimezone(z)
+                    if len({x.astimezone(z).utcoffset() for x in map(parsedate_to_datetime, sv["timestamps"])}) > 1:
+                        obs.ev("timeseries_straddling_offset_change")
+                    if not isinstance(a, datetime) or a.tzinfo is None or a != ref or a.utcoffset() != loc.utcoffset() or \
+                            (a.year, a.month, a.day, a.hour, a.minute, a.second) != (loc.year, loc.month, loc.day, loc.hour, loc.minute, loc.second):
                         obs.violate("timeseries_timestamps_wrong", f"{fld}: {b!r} became {a!r}", **wit)
                         break
             elif sv is None and v is not None:
